@@ -140,6 +140,39 @@ def run(ctx):
                 if not ok:
                     ctx.disagree("persist:location-read", f"read() without path did not read from the cwd at call {d3}", desc)
             os.chdir(home)
+        # ---- several files read in one process: objects loaded earlier stay what they were, whatever is loaded later
+        #      (same sector signatures on purpose), and loaded objects are independent of each other ----------------------
+        for case in range(3 if quick else 20):
+            norb = rng.choice([2, 3])
+            wk = rng.choice(["single", "multi", "spinbroken"])
+            base = C01.make_wfn(ctx, wk, norb, rng)
+            dd = os.path.join(root, f"m{case}")
+            os.makedirs(dd)
+            originals, loaded = [], []
+            for k in range(3):
+                wv = copy.deepcopy(base)
+                U.random_fill(wv, rng, zero_p=0.0)
+                wv.save(f"f{k}.bin", path=dd)
+                originals.append(snapshot(wv))
+            desc = {"wfn": wk, "norb": norb, "sectors": sorted(base.sectors()), "case": case}
+            for k in (0, 1, 2, 0):
+                r_ = fqe.wavefunction.Wavefunction()
+                r_.read(f"f{k}.bin", path=dd)
+                loaded.append((k, r_))
+                ctx.case(("multi-read", case, len(loaded)))
+                ctx.count("multi-read")
+                for k0, obj in loaded:
+                    if snapshot(obj) != originals[k0]:
+                        ctx.disagree("persist:earlier-object-changed-by-later-read",
+                                     f"the object read from f{k0}.bin no longer equals that file after {len(loaded)} reads in the process",
+                                     desc)
+                        break
+            # mutate the last loaded object: the others must not follow
+            loaded[-1][1].scale(3.0)
+            for k0, obj in loaded[:-1]:
+                if snapshot(obj) != originals[k0]:
+                    ctx.disagree("persist:loaded-objects-share-data", "scaling one loaded object changed another one", desc)
+                    break
     finally:
         os.chdir(home)
         shutil.rmtree(root, ignore_errors=True)
